@@ -266,6 +266,11 @@ def oracle_histories(ctx: vlib.Ctx, n: int, keep_cases=None, focus=None):
             for o in ("onf", "baf", "ctx"):
                 if c.get(o):
                     feats.add("flag:" + o)
+            if c.get("cdial"):
+                feats.add("Config.dialect")
+            for _, t in c["fields"]:
+                if t[0] in ("bytes", "date", "ghost"):
+                    feats.add("field:" + t[0])
             if c["dsup"]:
                 feats.add("dialect-support")
             if c["parent"] is not None:
@@ -488,8 +493,8 @@ def run(ctx: vlib.Ctx):
         from harness.props import c14_coq
         c14_coq.theorems(ctx)
         cases = []
-        oracle_histories(ctx, ctx.budget(120, 1500), keep_cases=cases)
-        oracle_histories(ctx, ctx.budget(40, 400), keep_cases=cases, focus="spec")
+        oracle_histories(ctx, ctx.budget(110, 1500), keep_cases=cases)
+        oracle_histories(ctx, ctx.budget(60, 500), keep_cases=cases, focus="spec")
         oracle_histories(ctx, ctx.budget(40, 400), keep_cases=cases, focus="kwargs")
         tie_ok = c14_coq.correspondence(ctx, cases)
         if not tie_ok or ctx.unshown:
